@@ -237,9 +237,9 @@ def run_object(case):
                 ansi = bool(case.get("ansi")) ^ (alternate and (k // 2) % 2 == 1)
                 ev["T"] = 80 if wide else ev["ind"] + geometry(case["style"], n) + n + case.get("slack", 6)
                 ev["runA"] = True
-                if case.get("decoy"):  # another table built on the same style object
+                if case.get("decoy") and table._rows:  # another, wider table built on the same style object
                     d = Table(style)
-                    d.add_row(["x"] * (n + 1))
+                    d.add_row(["x"] * (max(n, len(style.column_alignments)) + 1))
                     dio = BufferedIO()
                     dio.set_terminal_dimensions(Rectangle(120, 50))
                     d.render(dio)
@@ -483,7 +483,7 @@ def run(ctx):
 
     # ---- code -> spec: seeded random tables, larger than TLC enumerates
     traces, cases = [], []
-    nrand = 300 if quick else 3000
+    nrand = 250 if quick else 3000
     for j in range(nrand):
         case = random_case(ctx.rng, big=(j % (8 if quick else 4) == 0))
         ev = render_case(case)
@@ -508,6 +508,8 @@ def run(ctx):
     nobj = 0
     for b in seqs:
         h = zlib.crc32(json.dumps(b).encode())
+        if quick and (h // 7 + ctx.seed) % 2:  # the quick tier replays every second sequence (which half: by the seed)
+            continue
         ocase = {"kind": "object", "style": styles[h % 4], "ind": [0, 3][(h // 4) % 2], "ansi": (h // 8) % 2 == 0, "slack": 6,
                  "vary": (h // 16) % 6, "decoy": (h // 128) % 3 == 0, "alternate": quick or (h // 512) % 2 == 0,
                  "ops": [{"op": o["op"], "row": o["row"], "rws": o["rws"], "idx": o["idx"], "a": 1, "w": o["w"]} for o in b]}
